@@ -9,6 +9,8 @@
 #include "h.h"
 #include <unistd.h>
 #include <sys/wait.h>
+#include <sys/prctl.h>
+#include <signal.h>
 #include <errno.h>
 
 enum kind { O_CREATE, O_FREE, O_FREENULL, O_CRYPT, O_RELOAD, O_RECODE, O_ENABLE, O_INJECT, O_ARM, O_BADCALL };
@@ -560,7 +562,7 @@ int main(int argc, char **argv) {
         int W = G_workers; if ((uint32_t)W > nf) W = (int)nf;
         int fds[64][2]; pid_t pid[64];
         fflush(stdout);
-        for (int w = 0; w < W; w++) { if (pipe(fds[w])) exit(3); pid[w] = fork(); if (pid[w] == 0) { close(fds[w][0]); expand_worker(front, nf, w, W, fds[w][1]); } close(fds[w][1]); }
+        for (int w = 0; w < W; w++) { if (pipe(fds[w])) exit(3); pid[w] = fork(); if (pid[w] == 0) { prctl(PR_SET_PDEATHSIG, SIGKILL); close(fds[w][0]); expand_worker(front, nf, w, W, fds[w][1]); } close(fds[w][1]); }
         nn = 0;
         for (int w = 0; w < W; w++) {
             FILE *f = fdopen(fds[w][0], "r"); struct rec rc; int ended = 0;
